@@ -48,10 +48,16 @@ def p_lines(mo):
     return {(f[1], f[2]): f[5] for f in (l.split("\t") for l in mo.splitlines()) if f[0] == "P" and len(f) > 5}
 
 
-def evaluate(c, mo, hist, exe_name, alt_order=None):
+def q_lines(mo):
+    return {(f[1], f[2]): f[6] for f in (l.split("\t") for l in mo.splitlines()) if f[0] == "Q" and len(f) > 7}
+
+
+def evaluate(c, mo, hist, exe_name, alt_order=None, alt_chain=None):
     """shared by C07 and C08: compares implementation / model / spec per line. Returns stats dict.
     alt_order: P results of the model variant in which Rollback is sensitive to the order of a block
-    record (the code before that repair); used only to NAME a mismatch of that shape."""
+    record (the code before that repair); used only to NAME a mismatch of that shape.
+    alt_chain: (P results, Q results) of the model variant in which removableTxForRemoveWallet finds the
+    owner of a spent output on the node's current chain (the code before that repair); used only to NAME."""
     st = dict(nq=0, nquiet=0, nproc=0, nsteps=0, nz=0, died=0, distinct=set())
     bad = {}
 
@@ -76,7 +82,10 @@ def evaluate(c, mo, hist, exe_name, alt_order=None):
                 st["died"] += 1
                 flag(h, "handler-died:model-%s" % mod, "the process died (%s) while the handler processed the announcement of block %s queued between two worker steps; model says %s" % (impl, f[3], mod))
             elif impl != mod:
-                if alt_order and alt_order.get((f[1], f[2])) == impl:
+                if alt_chain and alt_chain[0].get((f[1], f[2])) == impl:
+                    flag(h, "removal:spender-dropped-while-node-away", "announcement of block %s: implementation %s, model %s — what the model of the code BEFORE the repair of removableTxForRemoveWallet predicts: "
+                         "a removal round that ran while the node had reorganised away from the block of a survivor's coin dropped the tx record of its spender; the node came back onto that block" % (f[3], impl, mod))
+                elif alt_order and alt_order.get((f[1], f[2])) == impl:
                     flag(h, "rollback:block-record-order", "announcement of block %s refused (model of the repaired code accepts it): a rescan appended the creator of an in-block coin "
                          "AFTER its spender in the block record; Rollback walks the record backwards and fails with 'unexpected unspend non-existence credit'" % f[3])
                 else:
@@ -87,7 +96,12 @@ def evaluate(c, mo, hist, exe_name, alt_order=None):
             if len(im.split()) > 6:
                 st["distinct"].add(im)
             if im != mod:
-                flag(h, "model:report", "wallet %s query %s: implementation [%s] model [%s]" % (w, k, im[:400], mod[:400]))
+                if alt_chain and alt_chain[1].get((f[1], f[2])) == im:
+                    flag(h, "removal:spender-dropped-while-node-away", "wallet %s query %s: implementation [%s] model [%s] best chain [%s] — the implementation reports what the model of the code BEFORE the "
+                         "repair of removableTxForRemoveWallet predicts: a removal round that ran while the node had reorganised away from the block of a survivor's coin dropped the tx record of the "
+                         "transaction spending it; the node came back onto that block, and the later Rollback of the spender's block did not un-spend the coin" % (w, k, im[:300], mod[:300], spec[:300]))
+                else:
+                    flag(h, "model:report", "wallet %s query %s: implementation [%s] model [%s]" % (w, k, im[:400], mod[:400]))
             if quiet == "1":
                 st["nquiet"] += 1
                 if im != spec:
@@ -189,7 +203,9 @@ def main(tier, replay=None):
         return c.finish(TRUSTED, no_input_break="model driver failed: " + me[-1500:])
     hist = split_histories(impl)
     rc_ord, mord, me = V.sh("%s %d %d order < %s" % (exe, batch, cap, impl), timeout=3000)
-    st, bad = evaluate(c, mo, hist, exe, p_lines(mord) if rc_ord == 0 else None)
+    rc_chn, mchn, me = V.sh("%s %d %d chainlookup < %s" % (exe, batch, cap, impl), timeout=3000)
+    st, bad = evaluate(c, mo, hist, exe, p_lines(mord) if rc_ord == 0 else None,
+                       (p_lines(mchn), q_lines(mchn)) if rc_chn == 0 else None)
 
     # the witnesses of the _refuted theorems, replayed on the model of the code AS FOUND: the directed
     # scenarios must show the three defects there (spec mismatch / panic / residue)
@@ -211,6 +227,14 @@ def main(tier, replay=None):
             if f[0] == "P" and int(f[1]) >= 900000 and f[4] == "ok" and f[5] == "err":
                 found.add("order")
 
+    # ... and the re-attach family on the model of the code before the repair of removableTxForRemoveWallet:
+    # the survivor's report differs from the chain specification at a quiescent point
+    if rc_chn == 0:
+        for l in mchn.splitlines():
+            f = l.split("\t")
+            if f[0] == "Q" and int(f[1]) >= 901300 and f[4] == "1" and f[6] != f[7]:
+                found.add("reattach")
+
     for h, (key, what) in sorted(bad.items()):
         rep = {"history": h, "kind": key, "lines": hist.get(h, [])[:600]}
         if h >= 900000:
@@ -226,9 +250,10 @@ def main(tier, replay=None):
         "distinct_nontrivial": len(st["distinct"]),
         "rule": "one evaluation = one history on the real wallet: 2-3 wallets (standard and staking addresses), 8-23 random steps (blocks with 0-3 random transactions incl. in-block spend chains and "
                 "transactions paying/spending several wallets, sweep transactions that spend several outputs of ONE earlier transaction owned by different wallets (random input order) into one output, coinbase/standard/staking/binding outputs, reorgs, pending transactions delivered through the real filterTx and mined later, queries), "
-                "a wrong-passphrase request, the removal of a random wallet driven step by step (nothing / a block / a reorg queued between two steps / crash+restart between steps, with or without a reorg while down), "
+                "a wrong-passphrase request, the removal of a random wallet driven step by step (nothing / a block / a reorg queued between two steps / crash+restart between steps, with or without a reorg while down / "
+                "the node leaves 1-3 blocks for an unannounced detour before the request or at one step and is back on some or all of the SAME blocks at the next), "
                 "listing, UseWallet, build+sign by the survivors before/after, 3-10 more steps and a 2-5 deep reorg, then either re-import of the removed mnemonic (rescan, queries) or stop + raw LevelDB scan; "
-                "plus directed scenarios (the witnesses of the _refuted theorems, refusal while importing, re-import, block-record order after a rescan, shared-spend variants with two and three inputs from one previous transaction in both orders, in the thorough tier 20100 credits = two capped rounds with a restart between them). "
+                "plus directed scenarios (the witnesses of the _refuted theorems, refusal while importing, re-import, block-record order after a rescan, shared-spend variants with two and three inputs from one previous transaction in both orders, the re-attach family (16 of 48 variants in the quick tier, all in the thorough tier: the node reorganises away from the block of a survivor's coin before the request or between removal steps, nothing announced, and comes back onto the SAME block afterwards, with the spender's block replaced / connected again and replaced later / its transaction mined again; outputs of one previous transaction owned by the removed wallet, the survivor, a stranger in four arrangements), in the thorough tier 20100 credits = two capped rounds with a restart between them). "
                 "distinct_nontrivial = distinct reports with at least one listed coin. " + stats,
         "queries": st["nq"], "quiescent_queries_checked_against_spec": st["nquiet"], "announcements": st["nproc"],
         "worker_steps": st["nsteps"], "raw_scans": st["nz"], "processes_died": st["died"],
@@ -240,7 +265,7 @@ def main(tier, replay=None):
     })
     c.assumptions = ["node mempool empty", "consensus-valid chains only", "CoinbaseMaturity lowered to 4 and scrypt N to 16 by the harness (package variables)",
                      "pending set not modelled (its records are covered only by the raw scan)"]
-    if not replay and found != {"frame", "panic", "residue", "order"} and not c.violations:
+    if not replay and found != {"frame", "panic", "residue", "order", "reattach"} and not c.violations:
         brk = "the model of the code as found no longer shows the recorded defects on the directed scenarios: shown %s" % sorted(found)
     if not proofs_ok and not c.violations and not brk:
         brk = "proof obligations of Properties/C08.v no longer check: " + str(c.proof_break)
